@@ -56,6 +56,8 @@ def c24(tier, seed):
     ]
     if not q:
         jobs.append(J(KEYS, "VerifK24aUniqueDecoding", k=2, str=2, timeout_ms=900000))
+    # K24c: the final 64-bit invariant key (real XXH64 on concrete inputs) when a contextual tuple is listed more than once
+    jobs.append(J("pkg/storage", "VerifK24cRepeatedTuples", timeout_ms=120000))
     # K24b: the compositions on top of the Builder (PbValue, Tuple, invariant / check / read keys)
     from specs import validgroup
     jobs += validgroup.c24b(tier, seed)
